@@ -1220,6 +1220,9 @@ class ktensor:
 
         # Extract locations of nonzeros in W
         wsubs, _ = W.find()
+        if wsubs.size == 0:
+            # a sparse mask without stored entries has subs of shape (1, 0)
+            wsubs = np.zeros((0, self.ndims), dtype=int)
 
         # Assemble return array
         nvals = wsubs.shape[0]
